@@ -385,7 +385,7 @@ func sysCall(name string, post func(r *FnRun, st *State, args []*V, res []*V)) *
 			if post != nil {
 				post(r, st, args, res)
 			}
-			ev := make([]string, 8)
+			ev := make([]string, 12)
 			for i := range ev {
 				ev[i] = "0"
 			}
@@ -400,7 +400,7 @@ func sysCall(name string, post func(r *FnRun, st *State, args []*V, res []*V)) *
 			j := 5
 			for _, v := range res {
 				for _, l := range intLeaves(v) {
-					if j > 7 {
+					if j > 11 {
 						break
 					}
 					ev[j] = l
@@ -630,5 +630,66 @@ func init() {
 		q := mangle("q:i")
 		el := sSel(sSel(st.comp("elem:string", 2, "Int"), l.Arr), st.ixTerm(l.Off, q))
 		return vBool("(exists ((" + q + " Int)) (and (<= 0 " + q + ") (< " + q + " " + l.Len + ") (= " + el + " " + x.S + ")))")
+	})}
+}
+
+// ---- container/list as a ghost sequence: seq[l][i] is the i-th element, idx[e] its position, in[e] its list ----
+func init() {
+	get := func(st *State, leaf, idx string) string { return sSel(st.comp(leaf, 1, "Int"), idx) }
+	set := func(st *State, leaf, idx, v string) { st.writeLeaf(leaf, []string{idx}, "Int", v) }
+	at := func(st *State, l, i string) string { return selN(st.comp("list#seq", 2, "Int"), []string{l, i}) }
+	fams := []string{"list", "listel", "list.Element.Value"}
+	extModels["container/list.New"] = &model{doc: "fresh empty list", fams: fams, fn: simple(func(r *FnRun, st *State, instr ssa.Instruction, args []*V) *V {
+		l := st.allocRef()
+		set(st, "list#len", l, "0")
+		// nothing belongs to a list that has just been created
+		in := st.comp("listel#in", 1, "Int")
+		st.assume("(forall ((x Int)) (! (not (= (select " + in + " x) " + l + ")) :pattern ((select " + in + " x))))")
+		return vInt(l, resType(instr))
+	})}
+	extModels["(*container/list.List).Len"] = &model{doc: "ghost length", fn: simple(func(r *FnRun, st *State, instr ssa.Instruction, args []*V) *V {
+		return vInt(get(st, "list#len", args[0].S), resType(instr))
+	})}
+	extModels["(*container/list.List).Front"] = &model{doc: "first element of the sequence, or nil", fn: simple(func(r *FnRun, st *State, instr ssa.Instruction, args []*V) *V {
+		l := args[0].S
+		return st.nameV("front", vInt(sIte("(> "+get(st, "list#len", l)+" 0)", at(st, l, "0"), "0"), resType(instr)))
+	})}
+	extModels["(*container/list.Element).Next"] = &model{doc: "successor in the sequence; nil for the last element and for an element that has been removed from its list", fn: simple(func(r *FnRun, st *State, instr ssa.Instruction, args []*V) *V {
+		e := args[0].S
+		l := get(st, "listel#in", e)
+		nxt := "(+ " + get(st, "listel#idx", e) + " 1)"
+		return st.nameV("next", vInt(sIte(sOr(sEq(l, "0"), "(>= "+nxt+" "+get(st, "list#len", l)+")"), "0", at(st, l, nxt)), resType(instr)))
+	})}
+	extModels["(*container/list.List).PushBack"] = &model{doc: "appends a fresh element holding the value", fams: fams, fn: simple(func(r *FnRun, st *State, instr ssa.Instruction, args []*V) *V {
+		l, v := args[0].S, args[1]
+		e := st.allocRef()
+		st.writeLeaf("list.Element.Value#tag", []string{e}, "Int", v.Tag)
+		st.writeLeaf("list.Element.Value#val", []string{e}, "Int", v.Val)
+		n := st.nameV("len", vInt(get(st, "list#len", l), nil)).S
+		set(st, "listel#in", e, l)
+		set(st, "listel#idx", e, n)
+		st.writeLeaf("list#seq", []string{l, n}, "Int", e)
+		set(st, "list#len", l, "(+ "+n+" 1)")
+		return vInt(e, resType(instr))
+	})}
+	extModels["(*container/list.List).Remove"] = &model{doc: "removes the element from the sequence if it belongs to the list (later elements move up); the element no longer belongs to any list, so Next() on it yields nil", fams: fams, fn: simple(func(r *FnRun, st *State, instr ssa.Instruction, args []*V) *V {
+		l, e := args[0].S, args[1].S
+		in := st.nameV("in", vBool(sEq(get(st, "listel#in", e), l))).S
+		i := st.nameV("ri", vInt(get(st, "listel#idx", e), nil)).S
+		oldSeq := sSel(st.comp("list#seq", 2, "Int"), l)
+		oldIdx := st.comp("listel#idx", 1, "Int")
+		oldIn := st.comp("listel#in", 1, "Int")
+		row := r.fresh("seqrow", "(Array Int Int)")
+		j := mangle("q:j")
+		st.assume("(forall ((" + j + " Int)) (! (= (select " + row + " " + j + ") (ite (and " + in + " (>= " + j + " " + i + ")) (select " + oldSeq + " (+ " + j + " 1)) (select " + oldSeq + " " + j + "))) :pattern ((select " + row + " " + j + "))))")
+		r.setRow(st, "list#seq", "Int", l, row)
+		st.havocLeaf("listel#idx")
+		nIdx := st.comp("listel#idx", 1, "Int")
+		x := mangle("q:x")
+		st.assume("(forall ((" + x + " Int)) (! (= (select " + nIdx + " " + x + ") (ite (and " + in + " (= (select " + oldIn + " " + x + ") " + l + ") (> (select " + oldIdx + " " + x + ") " + i + ")) (- (select " + oldIdx + " " + x + ") 1) (select " + oldIdx + " " + x + "))) :pattern ((select " + nIdx + " " + x + "))))")
+		set(st, "list#len", l, sIte(in, "(- "+get(st, "list#len", l)+" 1)", get(st, "list#len", l)))
+		set(st, "listel#in", e, sIte(in, "0", get(st, "listel#in", e)))
+		anyT := types.NewInterfaceType(nil, nil)
+		return &V{K: KIface, T: anyT, Tag: sSel(st.comp("list.Element.Value#tag", 1, "Int"), e), Val: sSel(st.comp("list.Element.Value#val", 1, "Int"), e)}
 	})}
 }
